@@ -469,13 +469,14 @@ fn ss_run_inner(r: &mut Rng, id: String, o: &SsOpts, trunc: Option<bool>) -> Run
     let mut route = gen_route(r, o.profile, tl + 500.0, vmax);
     gate_route(&mut route, &train);
     let total = route.total_len();
-    let (t0, off0, v0) = match o.init { 0 => (0.0, tl, 0.0), _ => (r.range(0.0, 500.0).round(), (tl + r.range(0.0, (total - tl) * 0.3)).min(total - 100.0).max(tl), if o.profile == 1 { vmax * 0.9 } else { r.range(0.0, vmax * 0.6) }) };
+    // 4: no initial state given (the train starts at rest at the head of the route) but the trace STARTS IN MOTION
+    let (t0, off0, v0) = match o.init { 0 => (0.0, tl, 0.0), 4 => (0.0, tl, r.range(1.0, (vmax * 0.6).max(1.5))), _ => (r.range(0.0, 500.0).round(), (tl + r.range(0.0, (total - tl) * 0.3)).min(total - 100.0).max(tl), if o.profile == 1 { vmax * 0.9 } else { r.range(0.0, vmax * 0.6) }) };
     let max_dist = if o.overrun { total } else { (total - off0 - 50.0).max(0.0) };
     let (mut times, mut speeds) = gen_trace(r, o.n_steps, t0, v0, vmax, o.irregular, max_dist);
     if let Some(k) = o.negative_at { if k < speeds.len() { speeds[k] = -r.range(0.01, 3.0); } }
     if let Some(st) = trunc { let cut = 2 + r.below(times.len().saturating_sub(3).max(1)); if st { times.truncate(cut); } else { speeds.truncate(cut); } }
     let init = match o.init {
-        0 => None,
+        0 | 4 => None,
         1 => Some(InitTrainState::new(Some(uc::S * t0), Some(uc::M * off0), Some(uc::MPS * v0))),
         // 3: only the CLOCK of the initial state differs from the trace's first stamp (a trimmed trace, wall-clock stamps):
         // position and speed are consistent, the simulated time has to follow the trace from the first step on
@@ -485,7 +486,7 @@ fn ss_run_inner(r: &mut Rng, id: String, o: &SsOpts, trunc: Option<bool>) -> Run
     if o.init == 0 { times[0] = 0.0; }
     let mut tags = route.tags.clone(); tags.extend(train.tags.clone());
     tags.push(format!("trace:{}", if o.irregular { "irregular" } else { "regular" }));
-    tags.push(format!("init:{}", ["default", "custom", "inconsistent", "clock_differs"][o.init as usize]));
+    tags.push(format!("init:{}", ["default", "custom", "inconsistent", "clock_differs", "trace_starts_in_motion"][o.init as usize]));
     tags.push(format!("train_vs_links:{}", { let m = route.path.iter().map(|l| route.network[l.idx()].length.value).fold(f64::INFINITY, f64::min);
         let mx = route.path.iter().map(|l| route.network[l.idx()].length.value).fold(0.0, f64::max);
         if tl > mx { "longer_than_every_link" } else if tl < m { "shorter_than_every_link" } else { "between" } }));
